@@ -166,7 +166,7 @@ class Pools(object):
 
     def close(self):
         for p in self.pool.values():
-            p.shutdown(wait=False, cancel_futures=True)
+            p.shutdown(wait=True, cancel_futures=True)
 
 
 def _pred(check, flags=None):
